@@ -476,11 +476,26 @@ type hxResult struct {
 // hxNewEnv builds a fresh database whose world state holds the initial account values, a chain
 // with the given concurrency level and the initial transition on top of that state.
 // dir is a directory for the (unused) contract store. A returned error is a harness problem.
+// hxSlowLog > 0 makes the next environment's logger write warnings to a sink that takes this long per line.
+var hxSlowLog time.Duration
+
+type hxSlowWriter struct{ d time.Duration }
+
+func (w hxSlowWriter) Write(p []byte) (int, error) {
+	time.Sleep(w.d)
+	return len(p), nil
+}
+
 func hxNewEnv(level int, dir string, nAcc int, seedVal int) (*hxEnv, error) {
 	dbase := db.NewMapDB()
 	logger := log.New()
 	logger.SetOutput(io.Discard)
 	logger.SetLevel(log.PanicLevel)
+	if hxSlowLog > 0 {
+		logger.SetOutput(hxSlowWriter{hxSlowLog})
+		logger.SetLevel(log.WarnLevel)
+		logger.SetConsoleLevel(log.WarnLevel)
+	}
 	tc, err := test.NewChain(hxNullT{}, hxWallet, dbase, logger, consensus.NewCommitVoteSetFromBytes, "{}")
 	if err != nil {
 		return nil, err
